@@ -31,8 +31,8 @@ ASSUMPTIONS = [
     'required is that later operations behave as on a fresh object',
     'private dispatcher state is recorded in witnesses as a diagnosis only',
 ]
-REQUIRED = {'multi_round_fault_runs': 10, 'cascading_watcher_programs': 50, 'faulted_runs': 2000, 'faults_fired': 1500, 'probe_deliveries': 5000, 'in_batch_runs': 500,
-            'fault_watcher': 300, 'fault_updatekey': 300, 'fault_body': 300, 'failed_constructors': 10, 'class_level_cases': 5}
+REQUIRED = {'multi_round_fault_runs': 6, 'cascading_watcher_programs': 50, 'faulted_runs': 2000, 'faults_fired': 1500, 'probe_deliveries': 5000, 'in_batch_runs': 500,
+            'fault_watcher': 300, 'fault_updatekey': 300, 'fault_body': 200, 'failed_constructors': 10, 'class_level_cases': 5}
 
 _st = {}
 NAMES = ['a', 'b', 'c', 's']      # s is declared per_instance=False: its Parameter object is shared with the class
